@@ -199,23 +199,124 @@ struct XObjT : Obj {
   }
 };
 
-static Obj *make_obj(int flavour, int kind) {
+// Creation-time state that no listed property shows. variant 0 = plain (mpt_*_init / default constructor); 1..3:
+//  axis   direction bits of axis.format: AxisStyleX/Y/Z, set the way mpt::axis(AxisFlags) does (C struct),
+//         by layout::graph::axis(AxisFlags) or by item_group::create("xaxis"|"yaxis"|"zaxis") (wrappers, by_name)
+//  graph  frame (legend border type), text weight/style: public members without any setter, written directly
+// by_name (wrappers only): the object comes from item_group::create(<type name>) like the items of a layout file.
+static Obj *make_obj(int flavour, int kind, int variant = 0, bool by_name = false) {
+  Obj *o = 0;
+  void *st = 0;
   if (flavour == 0) {
     switch (kind) {
-      case KAxis: return new CObjT<mpt::axis>();
-      case KLine: return new CObjT<mpt::line>();
-      case KText: return new CObjT<mpt::text>();
-      case KGraph: return new CObjT<mpt::graph>();
-      default: return new CObjT<mpt::world>();
+      case KAxis: o = new CObjT<mpt::axis>(); break;
+      case KLine: o = new CObjT<mpt::line>(); break;
+      case KText: o = new CObjT<mpt::text>(); break;
+      case KGraph: o = new CObjT<mpt::graph>(); break;
+      default: o = new CObjT<mpt::world>(); break;
     }
+    st = const_cast<void *>(o->data());
+    if (variant && kind == KAxis) static_cast<mpt::axis *>(st)->format = variant & 0x3;
+  } else if (by_name) {
+    static const char *axes[] = {"axis", "xaxis", "yaxis", "zaxis"};
+    mpt::item_group grp;
+    mpt::metatype *mt = grp.create(kind == KAxis ? axes[variant & 3] : kKind[kind]);
+    switch (kind) {
+      case KAxis: if (auto *w = dynamic_cast<mpt::layout::graph::axis *>(mt)) o = new XObjT<mpt::layout::graph::axis, mpt::axis>(w); break;
+      case KLine: if (auto *w = dynamic_cast<mpt::layout::line *>(mt)) o = new XObjT<mpt::layout::line, mpt::line>(w); break;
+      case KText: if (auto *w = dynamic_cast<mpt::layout::text *>(mt)) o = new XObjT<mpt::layout::text, mpt::text>(w); break;
+      case KGraph: if (auto *w = dynamic_cast<mpt::layout::graph *>(mt)) o = new XObjT<mpt::layout::graph, mpt::graph>(w); break;
+      default: if (auto *w = dynamic_cast<mpt::layout::graph::world *>(mt)) o = new XObjT<mpt::layout::graph::world, mpt::world>(w); break;
+    }
+    if (!o) { if (mt) mt->unref(); return 0; }
+    st = const_cast<void *>(o->data());
+  } else {
+    switch (kind) {
+      case KAxis: o = variant ? new XObjT<mpt::layout::graph::axis, mpt::axis>(new mpt::layout::graph::axis((mpt::AxisFlags)(variant & 3)))
+                              : new XObjT<mpt::layout::graph::axis, mpt::axis>(); break;
+      case KLine: o = new XObjT<mpt::layout::line, mpt::line>(); break;
+      case KText: o = new XObjT<mpt::layout::text, mpt::text>(); break;
+      case KGraph: o = new XObjT<mpt::layout::graph, mpt::graph>(); break;
+      default: o = new XObjT<mpt::layout::graph::world, mpt::world>(); break;
+    }
+    st = const_cast<void *>(o->data());
   }
-  switch (kind) {
-    case KAxis: return new XObjT<mpt::layout::graph::axis, mpt::axis>();
-    case KLine: return new XObjT<mpt::layout::line, mpt::line>();
-    case KText: return new XObjT<mpt::layout::text, mpt::text>();
-    case KGraph: return new XObjT<mpt::layout::graph, mpt::graph>();
-    default: return new XObjT<mpt::layout::graph::world, mpt::world>();
+  if (variant && kind == KGraph) static_cast<mpt::graph *>(st)->frame = (uint8_t)variant;
+  if (variant && kind == KText) { static_cast<mpt::text *>(st)->weight = "nbl"[variant % 3]; static_cast<mpt::text *>(st)->style = "nio"[variant % 3]; }
+  return o;
+}
+
+// ------------------------------------------------------------------------------------------------
+// raw state: every member of the plain struct (no padding), pointer members by pointee
+struct Member { const char *name; size_t off, size; bool ptr; };
+#define MEMB(T, m) {#m, offsetof(mpt::T, m), sizeof(((mpt::T *)0)->m), false}
+#define MPTR(T, m) {#m, offsetof(mpt::T, m), sizeof(void *), true}
+#define MSUB(T, m, s, o, z) {#m "." #s, offsetof(mpt::T, m) + (o), (z), false}
+static const Member kAxisMemb[] = {MPTR(axis, _title), MEMB(axis, begin), MEMB(axis, end), MEMB(axis, tlen), MEMB(axis, exp), MEMB(axis, intv), MEMB(axis, sub),
+                                   MEMB(axis, format), MEMB(axis, dec), MEMB(axis, lpos), MEMB(axis, tpos)};
+static const Member kLineMemb[] = {MEMB(line, color), MSUB(line, attr, style, offsetof(mpt::lineattr, style), 1), MSUB(line, attr, width, offsetof(mpt::lineattr, width), 1),
+                                   MSUB(line, attr, symbol, offsetof(mpt::lineattr, symbol), 1), MSUB(line, attr, size, offsetof(mpt::lineattr, size), 1),
+                                   MSUB(line, from, x, 0, 4), MSUB(line, from, y, 4, 4), MSUB(line, to, x, 0, 4), MSUB(line, to, y, 4, 4)};
+static const Member kTextMemb[] = {MPTR(text, _value), MPTR(text, _font), MEMB(text, color), MEMB(text, size), MEMB(text, weight), MEMB(text, style), MEMB(text, align),
+                                   MSUB(text, pos, x, 0, 4), MSUB(text, pos, y, 4, 4), MEMB(text, angle)};
+static const Member kGraphMemb[] = {MPTR(graph, _axes), MPTR(graph, _worlds), MEMB(graph, fg), MEMB(graph, bg), MEMB(graph, pos), MEMB(graph, scale), MEMB(graph, grid),
+                                    MEMB(graph, align), MEMB(graph, frame), MEMB(graph, clip), MEMB(graph, lpos)};
+static const Member kWorldMemb[] = {MPTR(world, _alias), MEMB(world, color), MSUB(world, attr, style, offsetof(mpt::lineattr, style), 1), MSUB(world, attr, width, offsetof(mpt::lineattr, width), 1),
+                                    MSUB(world, attr, symbol, offsetof(mpt::lineattr, symbol), 1), MSUB(world, attr, size, offsetof(mpt::lineattr, size), 1), MEMB(world, cyc)};
+struct MembList { const Member *m; size_t n; };
+static const MembList kMemb[NKind] = {{kAxisMemb, sizeof kAxisMemb / sizeof *kAxisMemb}, {kLineMemb, sizeof kLineMemb / sizeof *kLineMemb}, {kTextMemb, sizeof kTextMemb / sizeof *kTextMemb},
+                                      {kGraphMemb, sizeof kGraphMemb / sizeof *kGraphMemb}, {kWorldMemb, sizeof kWorldMemb / sizeof *kWorldMemb}};
+
+// members a property is documented to control (from the unchanged setters); "format" of axis: only the TransformLg bit
+struct Control { int kind; const char *canon; const char *members; };
+static const Control kControl[] = {
+    {KAxis, "title", "_title"}, {KAxis, "begin", "begin"}, {KAxis, "end", "end"}, {KAxis, "tlen", "tlen"}, {KAxis, "exponent", "exp"},
+    {KAxis, "intervals", "intv format"}, {KAxis, "subtick", "sub"}, {KAxis, "decimals", "dec"}, {KAxis, "lpos", "lpos"}, {KAxis, "tpos", "tpos"},
+    {KLine, "color", "color"}, {KLine, "x1", "from.x"}, {KLine, "x2", "to.x"}, {KLine, "y1", "from.y"}, {KLine, "y2", "to.y"},
+    {KLine, "width", "attr.width"}, {KLine, "style", "attr.style"}, {KLine, "symbol", "attr.symbol"}, {KLine, "size", "attr.size"},
+    {KText, "value", "_value"}, {KText, "font", "_font"}, {KText, "pos", "pos.x pos.y"}, {KText, "color", "color"}, {KText, "size", "size"},
+    {KText, "align", "align"}, {KText, "angle", "angle"},
+    {KGraph, "axes", "_axes"}, {KGraph, "worlds", "_worlds"}, {KGraph, "foreground", "fg"}, {KGraph, "background", "bg"}, {KGraph, "pos", "pos"},
+    {KGraph, "scale", "scale"}, {KGraph, "grid", "grid"}, {KGraph, "align", "align"}, {KGraph, "clip", "clip"}, {KGraph, "lpos", "lpos"},
+    {KWorld, "color", "color"}, {KWorld, "cycles", "cyc"}, {KWorld, "width", "attr.width"}, {KWorld, "style", "attr.style"}, {KWorld, "symbol", "attr.symbol"},
+    {KWorld, "size", "attr.size"}, {KWorld, "alias", "_alias"}};
+static const uint8_t kAxisLg = 0x20;  // MPT_ENUM(TransformLg)
+
+typedef std::vector<std::string> Raw;  // one entry per member: hex bytes, or the string behind a pointer member
+static Raw raw_state(int kind, Obj *o) {
+  Raw r;
+  const uint8_t *base = (const uint8_t *)o->data();
+  for (size_t i = 0; i < kMemb[kind].n; i++) {
+    const Member &m = kMemb[kind].m[i];
+    if (m.ptr) { const char *s; memcpy(&s, base + m.off, sizeof s); r.push_back(s ? std::string("\"") + s + "\"" : std::string("(null)")); }
+    else r.push_back(hex(base + m.off, m.size, 16));
   }
+  return r;
+}
+static bool member_listed(int kind, const char *member, const char *only_canon = 0, FK fk = FStr) {
+  for (const Control &k : kControl) {
+    if (k.kind != kind || (only_canon && strcmp(k.canon, only_canon))) continue;
+    std::string list = std::string(" ") + k.members + " ";
+    if (only_canon && fk == FTextX) list = " pos.x ";
+    if (only_canon && fk == FTextY) list = " pos.y ";
+    if (list.find(std::string(" ") + member + " ") != std::string::npos) return true;
+  }
+  return false;
+}
+// first member that differs although it may not: allowed(member) says which members are free to change
+template <typename F> static std::string raw_diff(int kind, const Raw &a, const Raw &b, F allowed) {
+  for (size_t i = 0; i < kMemb[kind].n; i++) {
+    const char *name = kMemb[kind].m[i].name;
+    if (a[i] == b[i]) continue;
+    if (kind == KAxis && !strcmp(name, "format")) {  // direction and other bits apart from the log flag
+      unsigned x = strtoul(a[i].c_str(), 0, 16), y = strtoul(b[i].c_str(), 0, 16);
+      if (allowed(name) && ((x ^ y) & ~kAxisLg) == 0) continue;
+      return std::string("member format: ") + a[i] + " -> " + b[i] + (allowed(name) ? " (bits other than the log flag)" : "");
+    }
+    if (allowed(name)) continue;
+    return std::string("member ") + name + ": " + a[i].substr(0, 60) + " -> " + b[i].substr(0, 60);
+  }
+  return "";
 }
 
 // ------------------------------------------------------------------------------------------------
@@ -1018,7 +1119,7 @@ static void check_color_print(Ctx &c, int kind, const char *name, const mpt::col
            ren_col((const uint8_t *)&col).c_str(), printable(txt).c_str(), ren_col((const uint8_t *)back.get()).c_str());
 }
 
-static void run_history(Ctx &c, int flavour, int kind) {
+static void run_history(Ctx &c, int flavour, int kind, int variant, bool by_name) {
   g_color_id = mpt::mpt_color_typeid();
   g_fpoint_id = mpt::mpt_fpoint_typeid();
   g_lattr_id = mpt::mpt_lattr_typeid();
@@ -1027,8 +1128,25 @@ static void run_history(Ctx &c, int flavour, int kind) {
   World_ w;
   w.flavour = flavour; w.kind = kind;
   size_t nobj = 1 + c.weighted({3, 4, 2});
-  for (size_t i = 0; i < nobj; i++) w.objs.push_back(make_obj(flavour, kind));
+  for (size_t i = 0; i < nobj; i++) {
+    // typed cases: the objects get different creation-time state (axis directions x/y/z in turn)
+    Obj *o = make_obj(flavour, kind, variant ? (int)((variant - 1 + i) % 3) + 1 : 0, by_name);
+    VP_CHECK(c, o, "create-by-name-null", "item_group::create() gives no %s", kKind[kind]);
+    w.objs.push_back(o);
+  }
   c.logf("flavour=%s kind=%s objects=%zu", flavour ? "c++ wrapper" : "C struct", kKind[kind], nobj);
+  if (variant || by_name) c.logf("creation: %s%s", variant ? "typed (axis direction / graph frame / text weight+style set at creation)" : "plain", by_name && flavour ? ", through item_group::create(type name)" : "");
+  if (variant) c.label("create:typed");
+  if (by_name && flavour) c.label("create:by-type-name");
+  Raw raw_default;
+  { Obj *plain = make_obj(flavour, kind); raw_default = raw_state(kind, plain); plain->destroy(); }
+  std::vector<Raw> raws(nobj);
+  for (size_t i = 0; i < nobj; i++) raws[i] = raw_state(kind, w.objs[i]);
+  if (variant && kind == KAxis)
+    for (size_t i = 0; i < nobj; i++) {
+      unsigned f = static_cast<const mpt::axis *>(w.objs[i]->data())->format;
+      VP_CHECK(c, f == ((variant - 1 + i) % 3) + 1, "create-axis-direction", "axis #%zu created as direction %zu has format 0x%02x", i, ((variant - 1 + i) % 3) + 1, f);
+    }
   c.label(flavour ? "flavour:c++" : "flavour:c");
   c.label(kKind[kind]);
 
@@ -1273,6 +1391,33 @@ static void run_history(Ctx &c, int flavour, int kind) {
         c.label(val.mode == MTyped ? "set:accepted-typed" : val.mode == MValue ? "set:accepted-value" : "set:accepted-text");
       }
     }
+    // ---- raw state: members of the plain struct that no listed property shows (axis direction bits, graph frame,
+    // text weight/style) and members hidden behind a reading (intv in log mode) obey the same rules
+    {
+      auto none = [](const char *) { return false; };
+      std::vector<Raw> rawafter(nobj);
+      for (size_t i = 0; i < nobj; i++) rawafter[i] = raw_state(kind, w.objs[i]);
+      for (size_t i = 0; i < nobj; i++) {
+        if (i == t) continue;
+        std::string d = raw_diff(kind, raws[i], rawafter[i], none);
+        VP_CHECK(c, d.empty(), "raw-other-object-changed", "%s (returns %d) changed object #%zu: %s", what.c_str(), ret, i, d.c_str());
+      }
+      std::string d;
+      const char *tag = "raw-set-changed-other";
+      if (ret < 0) { d = raw_diff(kind, raws[t], rawafter[t], none); tag = "raw-refused-but-changed"; }
+      else if (is_assign) {  // property-wise: what no property lists stays the target's
+        d = raw_diff(kind, raws[t], rawafter[t], [&](const char *m) { return member_listed(kind, m); }); tag = "raw-assign-changed-unlisted";
+      } else if (is_copy) {  // mpt_*_init(obj, from): the whole struct, strings duplicated
+        d = raw_diff(kind, raws[src], rawafter[t], none); tag = "raw-copy-differs";
+      } else if (op == 2) {  // mpt_*_fini: *obj = def_*
+        d = raw_diff(kind, raw_default, rawafter[t], none); tag = "raw-reset-all-not-default";
+      } else if (target_prop >= 0) {
+        const char *canon = fresh[target_prop].name.c_str();
+        d = raw_diff(kind, raws[t], rawafter[t], [&](const char *m) { return member_listed(kind, m, canon, fk); });
+      } else { d = raw_diff(kind, raws[t], rawafter[t], none); tag = "raw-unknown-name-changed"; }
+      VP_CHECK(c, d.empty(), tag, "%s (returns %d): %s", what.c_str(), ret, d.c_str());
+      raws = rawafter;
+    }
     snap = after;
   }
   check_named_get(c, kind, w.objs[0], snap[0]);
@@ -1286,7 +1431,8 @@ static void run(Ctx &c) {
   uint8_t sel = c.u8();
   int kind = sel % NKind;
   int flavour = (sel / NKind) % 4 == 3 ? 1 : 0;  // 1 of 4 cases through the C++ wrappers
-  run_history(c, flavour, kind);
+  int tv = sel / 20;  // 0..12: creation variant (0 plain, 1..3 typed) and creation path (wrappers: constructor | create(name))
+  run_history(c, flavour, kind, tv % 4, (tv / 4) & 1);
 }
 
 static Target t = {
